@@ -39,7 +39,8 @@ func unwindAztecDraw(cc *checkCtx, compact bool, layers int) []oblRes {
 		ref := "aztec.EncodeWithColor"
 		data := c.SymParam(ref, 0, "data")
 		pct := c.SymParam(ref, 1, "pct")
-		c.Assume(term.And(term.Le(term.I(0), c.Term(pct)), term.Le(c.Term(pct), term.I(1000))))
+		// the percentage is any int: negative ones must be refused; for an empty payload (no data
+		// bits, known finding F6) the answer is left open
 		color := c.SymParam(ref, 3, "color")
 		rets, e := c.CallRets(ref, data, pct, exec.IntV(user, c.ParamType(ref, 2)), color)
 		if e != nil {
@@ -47,6 +48,7 @@ func unwindAztecDraw(cc *checkCtx, compact bool, layers int) []oblRes {
 		}
 		// error paths: nil barcode and non-nil error; exactly one success path
 		var succ *exec.Ret
+		var errPaths []*exec.Ret
 		for i := range rets {
 			r := &rets[i]
 			errTag, _ := r.C.IfaceParts(r.Vals[1])
@@ -62,6 +64,7 @@ func unwindAztecDraw(cc *checkCtx, compact bool, layers int) []oblRes {
 				continue
 			}
 			r.C.Oblige("config", fmt.Sprintf("%s/result-xor-error#%d", label, i), term.True, term.And(term.Ne(errTag, term.I(0)), term.Eq(resTag, term.I(0))))
+			errPaths = append(errPaths, r)
 		}
 		if succ == nil {
 			panic(&exec.ExecError{Msg: "no success path"})
@@ -91,6 +94,38 @@ func unwindAztecDraw(cc *checkCtx, compact bool, layers int) []oblRes {
 		}
 		if msgBits == nil || modeBits == nil {
 			panic(&exec.ExecError{Msg: "generateCheckWords / generateModeMessage were not called"})
+		}
+		// C12/C10: the explicit size is accepted iff the stuffed data plus the requested check bits
+		// eccBits = bits*pct/100 + 11 fit its usable bits (and the compact 64-word limit)
+		var hlRes, stRes exec.Val
+		for _, cr := range c.X.Calls {
+			switch cr.Fn {
+			case "aztec.highlevelEncode":
+				hlRes = cr.Res
+			case "aztec.stuffBits":
+				stRes = cr.Res
+				if c.Int(cr.Args[1]) != int64(aztecspec.WordSize(compact, layers)) {
+					bad("stuff-wordsize", "stuffBits is called with a different word size than ISO 24778 prescribes for this size")
+				}
+			}
+		}
+		if hlRes == nil || stRes == nil {
+			panic(&exec.ExecError{Msg: "highlevelEncode / stuffBits were not called"})
+		}
+		{
+			ws := aztecspec.WordSize(compact, layers)
+			tb := aztecspec.TotalBits(compact, layers)
+			ecc := term.Add(term.Div(term.Mul(c.Term(c.Field(hlRes, "count")), c.Term(pct)), term.I(100)), term.I(11))
+			stuffed := c.Term(c.Field(stRes, "count"))
+			fits := term.Le(term.Add(stuffed, ecc), term.I(int64(tb-tb%ws)))
+			if compact {
+				fits = term.And(fits, term.Le(stuffed, term.I(int64(64*ws))))
+			}
+			c.Oblige("config", label+"/ecc-honoured", ok, term.And(fits, term.Le(term.I(0), c.Term(pct))))
+			for i, r := range errPaths {
+				r.C.Oblige("config", fmt.Sprintf("%s/refused-only-if-too-large#%d", label, i), term.True,
+					term.Or(term.Not(fits), term.Lt(c.Term(pct), term.I(0)), term.Eq(c.Term(c.Field(hlRes, "count")), term.I(0))))
+			}
 		}
 		msg := c.MathArr(c.Field(msgBits, "model"))
 		mode := c.MathArr(c.Field(modeBits, "model"))
@@ -165,24 +200,127 @@ func unwindAztecDraw(cc *checkCtx, compact bool, layers int) []oblRes {
 }
 
 // unwindAztecAuto: automatic layer selection (userSpecifiedLayers == 0) with abstract stages,
-// unwound over the 33 candidate sizes; the path is cut at drawModeMessage. The obligations are
-// the preconditions of generateCheckWords and generateModeMessage on the merged selection
-// result: whatever size is chosen leaves room for at least one check word and its data word
-// count fits the mode message field (compact: <= 64 words).
+// unwound over the 33 candidate sizes; every path is cut at generateModeMessage. Obligations:
+//   - the preconditions of generateCheckWords and generateModeMessage (room for at least one check
+//     word, word count within the mode message field);
+//   - fits: the chosen (format, layers) really holds the stuffed data plus the requested check
+//     bits eccBits = bits*pct/100 + 11, within the compact 64-word limit (C12: the requested
+//     percentage is honoured);
+//   - smallest: no ISO 24778 symbol (of all 36, sizes and capacities from aztecspec) with a
+//     smaller side length fits (C13);
+//   - too-large: the error is returned only if none of the 36 symbols fits (C10).
+// The stuffed length for word size w is the uninterpreted spec function azStuffLen(bits, w)
+// constrained by the contract of stuffBits.
 func unwindAztecAuto(cc *checkCtx) []oblRes {
 	label := "config/aztec.auto-selection"
 	c := exec.NewConc(cc.P)
 	c.X.Driver = "azauto"
 	c.X.SplitLoopExits = true
+	c.X.LogCalls = true
 	err := c.Try(func() {
 		ref := "aztec.EncodeWithColor"
 		data := c.SymParam(ref, 0, "data")
 		pct := c.SymParam(ref, 1, "pct")
-		c.Assume(term.And(term.Le(term.I(0), c.Term(pct)), term.Le(c.Term(pct), term.I(1000))))
+		// the percentage is any int: negative ones must be refused; for an empty payload (no data
+		// bits, known finding F6) the answer is left open
 		color := c.SymParam(ref, 3, "color")
-		_, e := c.CallRets(ref, data, pct, exec.IntV(0, c.ParamType(ref, 2)), color)
+		rets, e := c.CallRets(ref, data, pct, exec.IntV(0, c.ParamType(ref, 2)), color)
 		if e != nil && e.Error() != "aztec.EncodeWithColor does not return" {
 			panic(&exec.ExecError{Msg: e.Error()})
+		}
+		sf := c.SpecFun("azStuffLen")
+		if sf == nil {
+			panic(&exec.ExecError{Msg: "spec function azStuffLen is not declared (aztec contracts)"})
+		}
+		var hl exec.Val
+		for _, cr := range c.X.Calls {
+			if cr.Fn == "aztec.highlevelEncode" {
+				if hl != nil {
+					panic(&exec.ExecError{Msg: "highlevelEncode is called more than once"})
+				}
+				hl = cr.Res
+			}
+		}
+		if hl == nil {
+			panic(&exec.ExecError{Msg: "highlevelEncode is not called"})
+		}
+		// read the bit count in a state in which the list exists (a selection path), not in the merged
+		// state of the error returns (the illegal-percentage path never calls highlevelEncode)
+		var hlCount *T
+		for _, cr := range c.X.Calls {
+			if cr.Fn == "aztec.generateModeMessage" {
+				hlCount = c.View(cr.Pre).Term(c.View(cr.Pre).Field(hl, "count"))
+				break
+			}
+		}
+		if hlCount == nil {
+			panic(&exec.ExecError{Msg: "no selection path reaches generateModeMessage"})
+		}
+		S := func(ws int) *T { return term.App(sf, c.Term(hl), term.I(int64(ws))) }
+		// the contract of stuffBits, instantiated for the four word sizes in use
+		for _, ws := range []int{6, 8, 10, 12} {
+			w := term.I(int64(ws))
+			c.Assume(term.And(term.Le(hlCount, S(ws)), term.Eq(term.Mod(S(ws), w), term.I(0)),
+				term.Le(S(ws), term.Mul(term.Div(term.Add(hlCount, term.I(int64(ws-2))), term.I(int64(ws-1))), w))))
+		}
+		ecc := term.Add(term.Div(term.Mul(hlCount, c.Term(pct)), term.I(100)), term.I(11))
+		type cand struct {
+			compact bool
+			layers  int
+		}
+		var cands []cand
+		for l := 1; l <= 4; l++ {
+			cands = append(cands, cand{true, l})
+		}
+		for l := 1; l <= 32; l++ {
+			cands = append(cands, cand{false, l})
+		}
+		fits := func(k cand) *T {
+			ws := aztecspec.WordSize(k.compact, k.layers)
+			tb := aztecspec.TotalBits(k.compact, k.layers)
+			f := term.Le(term.Add(S(ws), ecc), term.I(int64(tb-tb%ws)))
+			if k.compact {
+				f = term.And(f, term.Le(S(ws), term.I(int64(64*ws))))
+			}
+			return f
+		}
+		nsel := 0
+		for _, cr := range c.X.Calls {
+			if cr.Fn != "aztec.generateModeMessage" {
+				continue
+			}
+			nsel++
+			v := c.View(cr.Pre)
+			compact, okc := cr.Args[0].(exec.VT)
+			if !okc || !compact.T.IsConst() {
+				panic(&exec.ExecError{Msg: "selected format is not concrete on a selection path"})
+			}
+			k := cand{compact.T == term.True, int(c.Int(cr.Args[1]))}
+			name := fmt.Sprintf("%s/selected[%s]", label, map[bool]string{true: "compact", false: "full"}[k.compact]+fmt.Sprint(k.layers))
+			ws := aztecspec.WordSize(k.compact, k.layers)
+			// the word count handed to the mode message is the stuffed length in words
+			v.Oblige("config", name+"/words", term.True, term.Eq(v.Term(cr.Args[2]), term.Div(S(ws), term.I(int64(ws)))))
+			v.Oblige("config", name+"/fits", term.True, term.And(fits(k), term.Le(term.I(0), c.Term(pct))))
+			var none []*T
+			for _, j := range cands {
+				if aztecspec.SymbolSize(j.compact, j.layers) < aztecspec.SymbolSize(k.compact, k.layers) {
+					none = append(none, term.Not(fits(j)))
+				}
+			}
+			v.Oblige("config", name+"/smallest", term.True, term.And(none...))
+		}
+		if nsel == 0 {
+			panic(&exec.ExecError{Msg: "no selection path reaches generateModeMessage"})
+		}
+		for i := range rets {
+			r := &rets[i]
+			errTag, _ := r.C.IfaceParts(r.Vals[1])
+			var none []*T
+			for _, j := range cands {
+				none = append(none, term.Not(fits(j)))
+			}
+			r.C.Oblige("config", fmt.Sprintf("%s/too-large#%d", label, i), term.True,
+				term.And(term.Ne(errTag, term.I(0)), term.Or(term.And(none...), term.Lt(c.Term(pct), term.I(0)), term.Eq(hlCount, term.I(0)))))
 		}
 	})
 	if err != nil {
